@@ -73,6 +73,8 @@ func init() {
 		vC15(seed, count, extra)
 	case "c11":
 		vC11(seed, count, extra)
+	case "tok":
+		vTok(seed, count, extra)
 	case "transpile-stdin":
 		// one hex-encoded source per line -> "ok <hex go>" | "err <hex msg>"
 		sc := bufio.NewScanner(os.Stdin)
